@@ -144,7 +144,7 @@ pub fn gen_scenario(r: &mut Rng, seed: u64) -> Scenario {
         abusers.push((addr(k), incoming, announced));
     }
     let desc = json!({"seed": seed, "pieces": n, "piece_length": torrent.piece_len, "abusers": pdesc});
-    Scenario { cfg: SimCfg { torrent, peers, tracker: vec![], failpoints: None, max_virtual_ms: 70_000, stop_on_extract: false, linger_ms: 0, disk_on: disk_never, seed, tracker_fn: None, driver: None }, desc, abusers }
+    Scenario { cfg: SimCfg { torrent, peers, tracker: vec![], failpoints: None, max_virtual_ms: 70_000, stop_on_extract: false, linger_ms: 0, disk_on: disk_never, seed, pre: None, tracker_fn: None, driver: None }, desc, abusers }
 }
 
 pub struct Finding { pub sig: String, pub what: String, pub at_seq: u64 }
